@@ -3,6 +3,7 @@ import D2P.Props.C02
 import D2P.Props.C05
 import D2P.Props.C19
 import D2P.Props.C15
+import D2P.Props.C13Total
 /-!
 # Non-vacuity: concrete documents that satisfy the hypotheses of the property theorems
 
@@ -60,5 +61,26 @@ def needs : Needs := fun cached a => if a == 0 then ⟨[.files, .root (lit "word
   else ⟨[.files, .root (lit "word/comments.xml")], []⟩
 example : (run needs [] {} [.read 0, .close, .read 0, .read 1, .close]).2 =
     [.value 0, .done true, .value 0, .valueError, .done true] := by decide +kernel
+
+end D2P.Ex
+
+namespace D2P.Ex
+
+/-- the nested-table document satisfies the hypothesis of `C13_part_total` -/
+example : validT nested = true := by decide +kernel
+
+/-- a document with a list paragraph, a comment range, a note reference, a merged cell and a drop-down -/
+def rich : Xml :=
+  el 0 "body" [] none [
+    p 1 [el 2 "pPr" [] none [el 3 "numPr" [] none [el 4 "ilvl" [wattr "val" "2"] none [], el 5 "numId" [wattr "val" "7"] none []]],
+         el 6 "commentRangeStart" [wattr "id" "0"] none [], r 7 [t 8 "x", el 9 "footnoteReference" [wattr "id" "2"] none []],
+         el 10 "commentRangeEnd" [wattr "id" "0"] none []],
+    tbl 11 [tr 12 [tc 13 [el 14 "gridSpan" [wattr "val" "2"] none []] [p 15 [r 16 [el 17 "ddList" [] none [el 18 "listEntry" [wattr "val" "a"] none [], el 19 "result" [wattr "val" "0"] none []]]]]]]]
+
+example : validT rich = true := by decide +kernel
+example : (newDepthCollector cfg [] rich).map texts = .ok [lit "\t\t--\tx----footnote2----", lit "a", lit "a"] := by decide +kernel
+
+/-- a note reference without id is outside the hypothesis (the schema requires `w:id`) -/
+example : validT (p 1 [r 2 [el 3 "footnoteReference" [] none []]]) = false := by decide +kernel
 
 end D2P.Ex
